@@ -16,6 +16,8 @@ import Gsd.Driver.C15
 import Gsd.Driver.C16
 import Gsd.Driver.C17
 import Gsd.Driver.C18
+import Gsd.Driver.C19
+import Gsd.Driver.C20
 
 def main (args : List String) : IO UInt32 := do
   match args with
@@ -37,4 +39,6 @@ def main (args : List String) : IO UInt32 := do
   | "C16" :: rest => Gsd.Driver.C16.main rest
   | "C17" :: rest => Gsd.Driver.C17.main rest
   | "C18" :: rest => Gsd.Driver.C18.main rest
+  | "C19" :: rest => Gsd.Driver.C19.main rest
+  | "C20" :: rest => Gsd.Driver.C20.main rest
   | _ => IO.eprintln "usage: gsdmodel <Cxx> (model|spec)"; return 2
